@@ -22,7 +22,7 @@
 
 #define GUARD 64
 #define GFILL 0xA5
-enum { P_SRS, P_TT, P_TB, P_BT, P_PACK, P_UNPACK, P_BCAST, P_GATHER, P_ITT, P_SCATTER, NPATH };
+enum { P_SRS, P_TT, P_TB, P_BT, P_PACK, P_UNPACK, P_BCAST, P_GATHER, P_ITT, P_SCATTER, P_SRS2, NPATH };
 typedef struct {
   int id, kind, nargs, *args;
   MPI_Datatype t;
@@ -187,6 +187,38 @@ static void test(ty_t* y, int count)
           verify(y, count, path, dst, exp, sel, span, rc);
           free(src);
           free(dst);
+        }
+        break;
+      case P_SRS2: /* message from a rank to itself, received through a *different* derived type of another size:
+                      blocks of d bytes, d a divisor of the message size other than the size of the sent type */
+        if (g_rank == 0 && n > 1) {
+          long tsz = n / (count > 0 ? count : 1);
+          long d   = 0;
+          for (long c = 2; c <= n && c <= 64; c++)
+            if (n % c == 0 && c != tsz) {
+              d = c;
+              break;
+            }
+          if (d == 0)
+            break;
+          MPI_Datatype blk;
+          MPI_Type_contiguous((int)d, MPI_BYTE, &blk);
+          MPI_Type_commit(&blk);
+          unsigned char* src  = gbuf(span, 1, 0);
+          unsigned char* dst  = gbuf(n, 0, 0);
+          unsigned char* expb = malloc(n + 1);
+          char* selb          = malloc(n + 1);
+          rc = MPI_Sendrecv(src + GUARD, count, y->t, 0, 6, dst + GUARD, (int)(n / d), blk, 0, 6, MPI_COMM_SELF, &st);
+          for (long k = 0; k < n; k++) {
+            expb[k] = pat(map[k], 0);
+            selb[k] = 1;
+          }
+          verify(y, count, path, dst, expb, selb, n, rc);
+          MPI_Type_free(&blk);
+          free(src);
+          free(dst);
+          free(expb);
+          free(selb);
         }
         break;
       case P_TT:
